@@ -39,6 +39,9 @@ pub struct Job {
     pub dur: u64,
     pub fail: Fail,
     pub site: Site,
+    /// the job's duration is spent in an external program (`xsleep`) instead of a builtin
+    #[serde(default)]
+    pub external_sleep: bool,
 }
 
 #[derive(Clone, Debug, Serialize, Deserialize, PartialEq)]
@@ -68,7 +71,8 @@ fn job_body(k: usize, j: &Job) -> String {
         Fail::Status(s) => format!(" simexit {s};"),
         Fail::Nounset => format!(" : $UNSET_VAR_{k};"),
     };
-    format!("probe s{k}; simsleep {}; echo {k} >> eff.txt; probe d{k};{tail}", j.dur)
+    let sleeper = if j.external_sleep { "xsleep" } else { "simsleep" };
+    format!("probe s{k}; {sleeper} {}; echo {k} >> eff.txt; probe d{k};{tail}", j.dur)
 }
 
 pub fn render(case: &Case) -> String {
@@ -161,7 +165,7 @@ impl C17 {
                 1 => Site::InLoop,
                 _ => Site::Top,
             };
-            jobs.push(Job { kind, dur: *rng.pick(&durs), fail, site });
+            jobs.push(Job { kind, dur: *rng.pick(&durs), fail, site, external_sleep: rng.below(3) == 0 });
         }
         let nounset = jobs.iter().any(|j| j.fail == Fail::Nounset);
         let mut steps = vec![];
